@@ -180,9 +180,6 @@ theorem bisectLoop_spec (p : Nat → Except Err Bool) (q : Nat → Bool) :
 /-- a column held as a list, indexed like Python (`IndexError` outside) -/
 def listGet (xs : List Cell) (i : Nat) : Except Err Cell := optGet xs[i]?
 
-/-- the cell at `i` (only used below `xs.length`) -/
-def cellAt (xs : List Cell) (i : Nat) : Cell := xs.getD i .missing
-
 theorem listGet_of_lt (xs : List Cell) (i : Nat) (h : i < xs.length) : listGet xs i = .ok (cellAt xs i) := by
   simp [listGet, cellAt, optGet, List.getD, List.getElem?_eq_getElem h]
 
@@ -987,20 +984,6 @@ def argSat : Op → ArgV → Key → Bool
   | op, .scalar v, c => keySat op c v.key
   | _, .coll _, _ => false
 
-/-- operator and argument fit: a value for the six comparisons, a collection for `in` / `!in` -/
-def argShape : Op → ArgV → Bool
-  | .isin, .coll _ => true
-  | .notin, .coll _ => true
-  | .isin, .scalar _ => false
-  | .notin, .scalar _ => false
-  | .mtch, _ => false
-  | _, .scalar _ => true
-  | _, .coll _ => false
-
-def probesOf : ArgV → List Cell
-  | .scalar v => [v]
-  | .coll vs => vs
-
 theorem ProbeOK.of_subset {cfg : Cfg} {xs : List Cell} {lo hi : Nat} {vs ws : List Cell}
     (h : ProbeOK cfg xs lo hi vs) (hsub : ∀ w ∈ ws, w ∈ vs) : ProbeOK cfg xs lo hi ws :=
   { h with cmp := fun w hw => h.cmp w (hsub w hw), vnn := fun w hw => h.vnn w (hsub w hw) }
@@ -1268,6 +1251,1219 @@ theorem segs_picks (f : Nat × Nat → Except Err (List (Nat × Nat))) (P : Nat 
     refine ⟨rs :: rss, by rw [List.mapM_cons, e, e']; rfl, ?_⟩
     simp only [List.flatMap_cons, id, List.flatMap_append]
     exact hp.append hp' hah hr.le
+
+
+/-! ## views -/
+
+/-- a selection over lists of length `N`: increasing row numbers below `N` -/
+structure SelOK (sel : Sel) (N : Nat) : Prop where
+  inc : StrictInc (sel.idx N)
+  lt : ∀ j ∈ sel.idx N, j < N
+
+theorem cellAt_eq_getElem (xs : List Cell) (i : Nat) (h : i < xs.length) : cellAt xs i = xs[i] := by
+  simp [cellAt, List.getD, List.getElem?_eq_getElem h]
+
+theorem optGet_getElem? (xs : List Cell) (i : Nat) (h : i < xs.length) : optGet xs[i]? = .ok (cellAt xs i) := by
+  simp [optGet, List.getElem?_eq_getElem h, cellAt_eq_getElem xs i h]
+
+theorem map_cellAt_range (xs : List Cell) : (List.range xs.length).map (cellAt xs) = xs := by
+  apply List.ext_getElem
+  · simp
+  · intro i h1 h2
+    simp at h1
+    simp [cellAt_eq_getElem xs i h1]
+
+theorem cellAt_map (f : Nat → Cell) (l : List Nat) (i : Nat) (h : i < l.length) :
+    cellAt (l.map f) i = f l[i] := by
+  simp [cellAt, List.getD, h]
+
+theorem mapM_optGet (base : List Cell) : ∀ (ix : List Nat), (∀ j ∈ ix, j < base.length) →
+    ix.mapM (fun j => optGet base[j]?) = .ok (ix.map (cellAt base))
+  | [], _ => rfl
+  | j :: rest, h => by
+    rw [List.mapM_cons, optGet_getElem? base j (h j (by simp)), mapM_optGet base rest (fun k hk => h k (by simp [hk]))]
+    rfl
+
+theorem drop_take_eq_map (base : List Cell) (a n : Nat) (h : a + n ≤ base.length) :
+    (base.drop a).take n = (List.range' a n).map (cellAt base) := by
+  apply List.ext_getElem
+  · simp; omega
+  · intro i h1 h2
+    simp at h1 h2
+    simp [cellAt_eq_getElem base (a + i) (by omega)]
+
+theorem seq_shows (base : List Cell) (sel : Sel) (h : SelOK sel base.length) :
+    Seq.Shows { base := base, sel := sel } (viewOf base sel) := by
+  cases sel with
+  | all =>
+    refine ⟨?_, ?_, ?_⟩
+    · simp [Seq.toList, viewOf, Sel.idx, map_cellAt_range]
+    · simp [Seq.len, viewOf, Sel.idx]
+    · intro i hi
+      simp [viewOf, Sel.idx] at hi
+      rw [show viewOf base Sel.all = (List.range base.length).map (cellAt base) from rfl,
+        cellAt_map _ _ i (by simpa using hi)]
+      simp [Seq.get, optGet_getElem? base i hi]
+  | slice a b =>
+    by_cases hab : a < b
+    · have hm : b - 1 ∈ (Sel.slice a b).idx base.length := by
+        simp only [Sel.idx, List.mem_range'_1]; omega
+      have := h.lt (b - 1) hm
+      have hb : a + (b - a) ≤ base.length := by omega
+      refine ⟨?_, ?_, ?_⟩
+      · simp [Seq.toList, viewOf, Sel.idx, drop_take_eq_map base a (b - a) hb]
+      · simp [Seq.len, viewOf, Sel.idx]
+      · intro i hi
+        simp [viewOf, Sel.idx] at hi
+        have : a + i < base.length := by omega
+        rw [show viewOf base (Sel.slice a b) = (List.range' a (b - a)).map (cellAt base) from rfl,
+          cellAt_map _ _ i (by simpa using hi)]
+        simp [Seq.get, optGet_getElem? base (a + i) this]
+    · have h0 : b - a = 0 := by omega
+      refine ⟨?_, ?_, ?_⟩
+      · simp [Seq.toList, viewOf, Sel.idx, h0]
+      · simp [Seq.len, viewOf, Sel.idx]
+      · intro i hi
+        simp [viewOf, Sel.idx, h0] at hi
+  | list ix =>
+    have hlt : ∀ j ∈ ix, j < base.length := fun j hj => h.lt j (by simpa [Sel.idx] using hj)
+    refine ⟨?_, ?_, ?_⟩
+    · simp [Seq.toList, viewOf, Sel.idx, mapM_optGet base ix hlt]
+    · simp [Seq.len, viewOf, Sel.idx]
+    · intro i hi
+      simp [viewOf, Sel.idx] at hi
+      have hj : ix[i] < base.length := hlt _ (List.getElem_mem hi)
+      rw [show viewOf base (Sel.list ix) = ix.map (cellAt base) from rfl, cellAt_map _ _ i hi]
+      simp [Seq.get, optGet, List.getElem?_eq_getElem hi, bind, Except.bind,
+        List.getElem?_eq_getElem hj, cellAt_eq_getElem base _ hj]
+
+
+/-! ### `_try_slice` and view-of-view -/
+
+theorem strictInc_last_ge : ∀ (rest : List Nat) (a l : Nat), StrictInc (a :: rest) → (a :: rest).getLast? = some l →
+    a + rest.length ≤ l
+  | [], a, l, _, h => by simp at h ⊢; omega
+  | b :: r, a, l, hi, h => by
+    unfold StrictInc at hi
+    rw [List.pairwise_cons] at hi
+    rw [List.getLast?_cons_cons] at h
+    have := strictInc_last_ge r b l hi.2 h
+    have := hi.1 b (by simp)
+    simp; omega
+
+theorem strictInc_tight : ∀ (rest : List Nat) (a l : Nat), StrictInc (a :: rest) → (a :: rest).getLast? = some l →
+    l = a + rest.length → a :: rest = List.range' a (rest.length + 1)
+  | [], a, l, _, _, _ => by simp [List.range']
+  | b :: r, a, l, hi, h, hl => by
+    have hi' := hi
+    unfold StrictInc at hi'
+    rw [List.pairwise_cons] at hi'
+    rw [List.getLast?_cons_cons] at h
+    have h1 := strictInc_last_ge r b l hi'.2 h
+    have h2 := hi'.1 b (by simp)
+    simp at hl
+    have hb : b = a + 1 := by omega
+    have := strictInc_tight r b l hi'.2 h (by omega)
+    rw [this, hb]
+    simp [List.range']
+
+theorem trySlice_idx (sel : List Nat) (N : Nat) (hinc : StrictInc sel) : (trySlice sel).idx N = sel := by
+  unfold trySlice
+  cases sel with
+  | nil => simp [Sel.idx]
+  | cons a rest =>
+    cases hl : (a :: rest).getLast? with
+    | none => simp [Sel.idx]
+    | some l =>
+      simp only
+      have hge := strictInc_last_ge rest a l hinc hl
+      split
+      · rename_i heq
+        have : l = a + rest.length := by simp at heq; omega
+        have ht := strictInc_tight rest a l hinc hl this
+        simp only [Sel.idx]
+        rw [ht]
+        congr 1
+        omega
+      · simp [Sel.idx]
+
+theorem strictInc_map_getD (l : List Nat) (hl : StrictInc l) :
+    ∀ (select : List Nat), StrictInc select → (∀ i ∈ select, i < l.length) →
+    StrictInc (select.map (fun i => l.getD i 0))
+  | [], _, _ => List.Pairwise.nil
+  | i :: rest, hs, hlt => by
+    unfold StrictInc at hs ⊢
+    rw [List.pairwise_cons] at hs
+    rw [List.map_cons, List.pairwise_cons]
+    refine ⟨?_, strictInc_map_getD l hl rest hs.2 (fun j hj => hlt j (by simp [hj]))⟩
+    intro y hy
+    rw [List.mem_map] at hy
+    obtain ⟨j, hj, rfl⟩ := hy
+    have hij := hs.1 j hj
+    have hi := hlt i (by simp)
+    have hjl := hlt j (by simp [hj])
+    unfold StrictInc at hl
+    rw [List.pairwise_iff_getElem] at hl
+    have := hl i j hi hjl hij
+    simp [List.getD, List.getElem?_eq_getElem hi, List.getElem?_eq_getElem hjl, this]
+
+theorem composeSel_spec (old : Sel) (N : Nat) (hold : SelOK old N) (select : List Nat)
+    (hinc : StrictInc select) (hlt : ∀ i ∈ select, i < (old.idx N).length) :
+    ∃ sel', composeSel old select = .ok sel' ∧
+      sel'.idx N = select.map (fun i => (old.idx N).getD i 0) ∧ SelOK sel' N := by
+  have hinc' := strictInc_map_getD (old.idx N) hold.inc select hinc hlt
+  have hmem : ∀ j ∈ select.map (fun i => (old.idx N).getD i 0), j < N := by
+    intro j hj
+    rw [List.mem_map] at hj
+    obtain ⟨i, hi, rfl⟩ := hj
+    have := hlt i hi
+    apply hold.lt
+    simp [List.getD, List.getElem?_eq_getElem this]
+  have key : ∀ l : List Nat, l = select.map (fun i => (old.idx N).getD i 0) →
+      (trySlice l).idx N = select.map (fun i => (old.idx N).getD i 0) ∧ SelOK (trySlice l) N := by
+    intro l hl
+    subst hl
+    have := trySlice_idx _ N hinc'
+    exact ⟨this, ⟨by rw [this]; exact hinc', by rw [this]; exact hmem⟩⟩
+  cases old with
+  | all =>
+    refine ⟨trySlice select, rfl, ?_⟩
+    apply key
+    simp only [Sel.idx] at hlt ⊢
+    symm
+    calc select.map (fun i => (List.range N).getD i 0) = select.map id := by
+          apply List.map_congr_left
+          intro i hi
+          have := hlt i hi
+          simp at this
+          simp [List.getD, this]
+      _ = select := by simp
+  | slice a b =>
+    refine ⟨trySlice (select.map (a + ·)), rfl, ?_⟩
+    apply key
+    simp only [Sel.idx] at hlt ⊢
+    apply List.map_congr_left
+    intro i hi
+    have := hlt i hi
+    simp at this
+    simp [List.getD, this]
+  | list ix =>
+    simp only [Sel.idx] at hlt hinc' hmem key ⊢
+    have hm : select.mapM (fun i => optGet ix[i]?) = .ok (select.map (fun i => ix.getD i 0)) := by
+      clear hinc hinc' hmem key
+      induction select with
+      | nil => rfl
+      | cons i rest ih =>
+        have hi := hlt i (by simp)
+        rw [List.mapM_cons, ih (fun j hj => hlt j (by simp [hj]))]
+        simp [optGet, List.getElem?_eq_getElem hi, List.getD, bind, Except.bind, pure, Except.pure]
+    refine ⟨trySlice (select.map (fun i => ix.getD i 0)), ?_, key _ rfl⟩
+    simp [composeSel, hm, bind, Except.bind]
+
+
+/-! ## tables -/
+
+/-- well-formed table over stored lists of length `N` -/
+structure Table.OK (t : Table) (N : Nat) : Prop where
+  len : ∀ p ∈ t.data, p.2.length = N
+  cols : ∀ c ∈ t.columns, ∃ b, lookupCol t.data c = .ok b
+  sel : SelOK t.sel N
+
+theorem lookupCol_mem {data : List (Nat × List Cell)} {c : Nat} {b : List Cell} (h : lookupCol data c = .ok b) :
+    (c, b) ∈ data := by
+  unfold lookupCol at h
+  cases hf : data.find? (fun p => p.1 == c) with
+  | none => simp [hf] at h
+  | some p =>
+    simp [hf] at h
+    have h1 := List.find?_some hf
+    have h2 := List.mem_of_find?_eq_some hf
+    simp at h1
+    cases p; simp_all
+
+theorem Table.OK.base_len {t : Table} {N : Nat} (h : t.OK N) {c : Nat} {b : List Cell}
+    (hb : lookupCol t.data c = .ok b) : t.base c = b ∧ b.length = N := by
+  refine ⟨by simp [Table.base, hb], h.len _ (lookupCol_mem hb)⟩
+
+theorem Table.OK.vcol_len {t : Table} {N : Nat} (h : t.OK N) {c : Nat} {b : List Cell}
+    (hb : lookupCol t.data c = .ok b) : (t.vcol c).length = t.m N := by
+  obtain ⟨e, l⟩ := h.base_len hb
+  simp [Table.vcol, viewOf, e, l, Table.m]
+
+theorem Table.OK.col_shows {t : Table} {N : Nat} (h : t.OK N) {c : Nat} {b : List Cell}
+    (hb : lookupCol t.data c = .ok b) :
+    t.col c = .ok { base := b, sel := t.sel } ∧ Seq.Shows { base := b, sel := t.sel } (t.vcol c) := by
+  obtain ⟨e, l⟩ := h.base_len hb
+  refine ⟨by simp [Table.col, hb, bind, Except.bind, pure, Except.pure], ?_⟩
+  rw [Table.vcol, e]
+  exact seq_shows b t.sel (by rw [l]; exact h.sel)
+
+theorem Table.OK.len_eq {t : Table} {N : Nat} (h : t.OK N) (hne : t.data ≠ []) : t.len = .ok (t.m N) := by
+  unfold Table.len
+  cases hd : t.data with
+  | nil => exact absurd hd hne
+  | cons p rest =>
+    obtain ⟨c, b⟩ := p
+    have hl : b.length = N := h.len (c, b) (by simp [hd])
+    simp only
+    congr 1
+    simp only [Seq.len, Table.m, Sel.idx]
+    cases t.sel <;> simp [hl]
+
+theorem minLen_const (m : Nat) : ∀ (cols : List (List Cell)), cols ≠ [] → (∀ c ∈ cols, c.length = m) → minLen cols = m
+  | [], h, _ => absurd rfl h
+  | [c], _, h => by simp [minLen, h c (by simp)]
+  | c :: d :: rest, _, h => by
+    have := minLen_const m (d :: rest) (by simp) (fun x hx => h x (by simp [hx]))
+    simp only [minLen] at this ⊢
+    rw [this, h c (by simp)]; simp
+
+/-- the `i`-th row the table shows -/
+def Table.rowAt (t : Table) (i : Nat) : List Cell := t.columns.map (fun c => cellAt (t.vcol c) i)
+
+theorem Table.OK.rows_eq {t : Table} {N : Nat} (h : t.OK N) (hne : t.columns ≠ []) :
+    t.rows = .ok ((List.range (t.m N)).map t.rowAt) := by
+  unfold Table.rows
+  have hm : t.columns.mapM (fun c => do let s ← t.col c; s.toList) = .ok (t.columns.map t.vcol) := by
+    have : ∀ cs : List Nat, (∀ c ∈ cs, ∃ b, lookupCol t.data c = .ok b) →
+        cs.mapM (fun c => do let s ← t.col c; s.toList) = .ok (cs.map t.vcol) := by
+      intro cs
+      induction cs with
+      | nil => intro _; rfl
+      | cons c rest ih =>
+        intro hc
+        obtain ⟨b, hb⟩ := hc c (by simp)
+        obtain ⟨e1, e2⟩ := h.col_shows hb
+        rw [List.mapM_cons, ih (fun d hd => hc d (by simp [hd]))]
+        simp [e1, e2.toList, bind, Except.bind, pure, Except.pure]
+    exact this t.columns h.cols
+  rw [hm]
+  simp only [bind, Except.bind, pure, Except.pure]
+  have hml : minLen (t.columns.map t.vcol) = t.m N := by
+    apply minLen_const
+    · simpa using hne
+    · intro x hx
+      rw [List.mem_map] at hx
+      obtain ⟨c, hc, rfl⟩ := hx
+      obtain ⟨b, hb⟩ := h.cols c hc
+      exact h.vcol_len hb
+  rw [hml]
+  congr 1
+  apply List.map_congr_left
+  intro i _
+  simp [Table.rowAt, cellAt, List.getD]
+
+
+/-! ## the specification side -/
+
+/-- the value of a test when it does not raise -/
+def evalB (test : Test) (c : Cell) : Bool :=
+  match test.eval c with
+  | .ok b => b
+  | .error _ => false
+
+theorem eval_eq_evalB {test : Test} {c : Cell} {b : Bool} (h : test.eval c = .ok b) : test.eval c = .ok (evalB test c) := by
+  simp [evalB, h]
+
+theorem find_zip_map (f : Nat → Cell) (c : Nat) : ∀ (cs : List Nat), c ∈ cs →
+    (cs.zip (cs.map f)).find? (fun p => p.1 == c) = some (c, f c)
+  | [], h => by simp at h
+  | d :: rest, h => by
+    simp only [List.map_cons, List.zip_cons_cons, List.find?_cons]
+    by_cases hd : d = c
+    · subst hd; simp
+    · have : (d == c) = false := by simpa using hd
+      simp only [this]
+      apply find_zip_map f c rest
+      simp at h
+      rcases h with h | h
+      · exact absurd h.symm hd
+      · exact h
+
+theorem cellOf_rowAt (t : Table) (i c : Nat) (hc : c ∈ t.columns) :
+    cellOf t.columns (t.rowAt i) c = .ok (cellAt (t.vcol c) i) := by
+  simp [cellOf, Table.rowAt, find_zip_map (fun c => cellAt (t.vcol c) i) c t.columns hc]
+
+theorem satRow_ok (columns : List Nat) (row : List Cell) (cellv : Nat → Cell) :
+    ∀ (conds : List Cond), (∀ k ∈ conds, cellOf columns row k.col = .ok (cellv k.col) ∧ ∃ b, k.test.eval (cellv k.col) = .ok b) →
+    satRow columns row conds = .ok (conds.any (fun k => evalB k.test (cellv k.col)))
+  | [], _ => rfl
+  | k :: ks, h => by
+    obtain ⟨h1, b, h2⟩ := h k (by simp)
+    simp only [satRow, h1, eval_eq_evalB h2, satRow_ok columns row cellv ks (fun k' hk' => h k' (by simp [hk'])), List.any_cons]
+
+theorem satRow_inv (columns : List Nat) (row : List Cell) :
+    ∀ (conds : List Cond) (b : Bool), satRow columns row conds = .ok b →
+    ∀ k ∈ conds, ∃ c b', cellOf columns row k.col = .ok c ∧ k.test.eval c = .ok b'
+  | [], _, _ => by simp
+  | k :: ks, b, h => by
+    simp only [satRow] at h
+    cases h1 : cellOf columns row k.col with
+    | error e => simp [h1] at h
+    | ok c =>
+      simp only [h1] at h
+      cases h2 : k.test.eval c with
+      | error e => simp [h2] at h
+      | ok b1 =>
+        simp only [h2] at h
+        cases h3 : satRow columns row ks with
+        | error e => simp [h3] at h
+        | ok b2 =>
+          intro k' hk'
+          simp at hk'
+          rcases hk' with rfl | hk'
+          · exact ⟨c, b1, h1, h2⟩
+          · exact satRow_inv columns row ks b2 h3 k' hk'
+
+theorem filterRows_ok (test : List Cell → Except Err Bool) (q : List Cell → Bool) :
+    ∀ (rows : List (List Cell)), (∀ r ∈ rows, test r = .ok (q r)) → filterRows test rows = .ok (rows.filter q)
+  | [], _ => rfl
+  | r :: rs, h => by
+    simp only [filterRows, h r (by simp), filterRows_ok test q rs (fun r' hr' => h r' (by simp [hr'])), List.filter_cons]
+
+theorem filterRows_inv (test : List Cell → Except Err Bool) :
+    ∀ (rows res : List (List Cell)), filterRows test rows = .ok res → ∀ r ∈ rows, ∃ b, test r = .ok b
+  | [], _, _ => by simp
+  | r :: rs, res, h => by
+    simp only [filterRows] at h
+    cases h1 : test r with
+    | error e => simp [h1] at h
+    | ok b =>
+      simp only [h1] at h
+      cases h2 : filterRows test rs with
+      | error e => simp [h2] at h
+      | ok rest =>
+        intro r' hr'
+        simp at hr'
+        rcases hr' with rfl | hr'
+        · exact ⟨b, h1⟩
+        · exact filterRows_inv test rs rest h2 r' hr'
+
+/-! ### `sorted(set(selection))` -/
+
+theorem insertNat_spec (x : Nat) : ∀ (l : List Nat), StrictInc l →
+    StrictInc (insertNat x l) ∧ ∀ i, i ∈ insertNat x l ↔ i = x ∨ i ∈ l
+  | [], _ => by simp [insertNat, StrictInc]
+  | y :: ys, h => by
+    have h' := h
+    unfold StrictInc at h'
+    rw [List.pairwise_cons] at h'
+    simp only [insertNat]
+    by_cases h1 : x < y
+    · simp only [h1, if_true]
+      refine ⟨?_, fun i => by simp⟩
+      unfold StrictInc
+      rw [List.pairwise_cons]
+      refine ⟨?_, h⟩
+      intro z hz
+      simp at hz
+      rcases hz with rfl | hz
+      · exact h1
+      · have := h'.1 z hz; omega
+    · simp only [h1, if_false]
+      by_cases h2 : x = y
+      · subst h2
+        simp only [if_true]
+        exact ⟨h, fun i => by simp⟩
+      · simp only [h2, if_false]
+        obtain ⟨a, b⟩ := insertNat_spec x ys h'.2
+        refine ⟨?_, fun i => by simp [b i]; tauto⟩
+        unfold StrictInc
+        rw [List.pairwise_cons]
+        refine ⟨?_, a⟩
+        intro z hz
+        rcases (b z).mp hz with rfl | hz
+        · omega
+        · exact h'.1 z hz
+
+theorem sortDedupNat_spec : ∀ (l : List Nat), StrictInc (sortDedupNat l) ∧ ∀ i, i ∈ sortDedupNat l ↔ i ∈ l
+  | [] => by simp [sortDedupNat, StrictInc]
+  | x :: xs => by
+    obtain ⟨a, b⟩ := sortDedupNat_spec xs
+    obtain ⟨c, d⟩ := insertNat_spec x (sortDedupNat xs) a
+    refine ⟨c, fun i => ?_⟩
+    simp only [sortDedupNat]
+    rw [d i, b i]; simp
+
+
+/-! ## one keyword of `where` -/
+
+/-- what has to hold for one keyword so that the code's answer is the plain one.  `pos` is the
+positional comparison of the call, `lohis` what `_calc_lohis` returned, `m` the number of rows. -/
+structure KwOK (cfg : Cfg) (t : Table) (lohis : List (Nat × List (Nat × Nat))) (m : Nat) (pos : Option Op)
+    (kw : Nat × Arg) : Prop where
+  /-- the column exists -/
+  incols : kw.1 ∈ t.columns
+  /-- `{'!in': …}` is understood (P9) -/
+  notin : ∀ a, kw.2 = .dict .notin a → cfg.notinKey = true
+  /-- a value for the six comparisons, a collection for `in`/`!in`; `match` is not covered -/
+  shape : ∀ op a, (condOf pos kw).test = .cmp op a → argShape op a = true
+  /-- indexed column: the lohis of the column are consecutive non-empty (P12) sorted (P13, P14)
+  segments; probes and cells can be ordered against each other and are not `None`; no equal probes
+  for `in` (P8); no `Missing` probe for an order comparison -/
+  bis : kw.1 ∈ t.indexes → ∀ op a, (condOf pos kw).test = .cmp op a →
+      ∃ segs, dictGet lohis kw.1 = .ok segs ∧ Segs segs 0 m ∧
+        (∀ p ∈ segs, ProbeOK cfg (t.vcol kw.1) p.1 p.2 (probesOf a)) ∧
+        allComparable (probesOf a) = true ∧
+        (op = .isin → cfg.dedupIn = true ∨ (probesOf a).Pairwise (fun u v => u.key ≠ v.key)) ∧
+        (∀ i, i < m → CellOK op a (cellAt (t.vcol kw.1) i))
+  /-- unindexed column: `<=`/`>=` do not meet `Missing` (P11) -/
+  scan : kw.1 ∉ t.indexes → ∀ op a, (condOf pos kw).test = .cmp op a → leGeOK cfg op a (t.vcol kw.1)
+
+/-- rows satisfying the keyword's documented condition -/
+def kwP (t : Table) (pos : Option Op) (kw : Nat × Arg) (i : Nat) : Prop :=
+  evalB (condOf pos kw).test (cellAt (t.vcol kw.1) i) = true
+
+theorem Segs.nil_eq {a b : Nat} (h : Segs [] a b) : a = b := by
+  generalize hl : ([] : List (Nat × Nat)) = l at h
+  cases h with
+  | nil => rfl
+  | cons _ _ => simp at hl
+
+theorem mem_cellAt {xs : List Cell} {i : Nat} (h : i < xs.length) : cellAt xs i ∈ xs := by
+  rw [cellAt_eq_getElem xs i h]; exact List.getElem_mem h
+
+theorem kwHere_spec (cfg : Cfg) (t : Table) (N : Nat) (hok : t.OK N) (lohis : List (Nat × List (Nat × Nat)))
+    (pos comparison : Option Op) (kw : Nat × Arg)
+    (hcmp : ∀ a, kw.2 = .val a → comparison = pos)
+    (h : KwOK cfg t lohis (t.m N) pos kw)
+    (hspec : ∀ i, i < t.m N → ∃ b, (condOf pos kw).test.eval (cellAt (t.vcol kw.1) i) = .ok b) :
+    ∃ l, kwHere cfg t lohis (t.m N) comparison kw.1 kw.2 = .ok l ∧ Picks l 0 (t.m N) (kwP t pos kw) := by
+  obtain ⟨c, arg⟩ := kw
+  obtain ⟨b, hb⟩ := hok.cols c h.incols
+  obtain ⟨ecol, hshows⟩ := hok.col_shows hb
+  have hlen : (t.vcol c).length = t.m N := hok.vcol_len hb
+  -- the scan with a test that is defined everywhere
+  have scan_case : ∀ (test : Cell → Except Err Bool) (tst : Test), (∀ x, tst.eval x = test x) →
+      (condOf pos (c, arg)).test = tst →
+      ∃ l, scanFilter 0 (t.vcol c) test = .ok l ∧ Picks l 0 (t.m N) (kwP t pos (c, arg)) := by
+    intro test tst hte hcond
+    obtain ⟨l, e, hp⟩ := scanFilter_picks (t.vcol c) 0 test (evalB tst) (by
+      intro x hx
+      obtain ⟨i, hi, rfl⟩ := List.getElem_of_mem hx
+      obtain ⟨b', hb'⟩ := hspec i (by omega)
+      simp only [hcond] at hb'
+      rw [cellAt_eq_getElem _ i hi] at hb'
+      rw [← hte, eval_eq_evalB hb'])
+    refine ⟨l, e, ?_⟩
+    rw [hlen, Nat.zero_add] at hp
+    apply hp.congr
+    intro i _ _
+    simp [kwP, hcond]
+  -- a comparison with a value / collection
+  have cmp_case : ∀ (op : Op) (a : ArgV), (condOf pos (c, arg)).test = .cmp op a →
+      ∃ l, (if (t.indexes.contains c && decide (op ≠ Op.mtch)) = true then
+              (do let segs ← dictGet lohis c
+                  let rs ← segs.mapM (fun (p : Nat × Nat) => compareBisect cfg { base := b, sel := t.sel } p.1 p.2 op a)
+                  pure ((rs.flatMap id).flatMap rangeOf))
+            else compareScan cfg ((t.vcol c).take (t.m N)) op a) = Except.ok l ∧ Picks l 0 (t.m N) (kwP t pos (c, arg)) := by
+    intro op a hcond
+    have hshape := h.shape op a hcond
+    have hnm : op ≠ Op.mtch := by rintro rfl; simp [argShape] at hshape
+    by_cases hidx : c ∈ t.indexes
+    · have hcon : (t.indexes.contains c && decide (op ≠ Op.mtch)) = true := by simp [hidx, hnm]
+      simp only [hcon, if_true]
+      obtain ⟨segs, e1, hsegs, hprobe, hall, hdup, hcell⟩ := h.bis hidx op a hcond
+      obtain ⟨rss, e2, hp⟩ := segs_picks (fun (p : Nat × Nat) => compareBisect cfg { base := b, sel := t.sel } p.1 p.2 op a)
+        (fun i => argSat op a (cellAt (t.vcol c) i).key = true) segs 0 (t.m N) hsegs
+        (fun p hp => compareBisect_spec cfg _ (t.vcol c) hshows p.1 p.2 op a hshape (hprobe p hp) hall hdup)
+      refine ⟨(rss.flatMap id).flatMap rangeOf, by simp only [e1, e2, bind, Except.bind, pure, Except.pure], ?_⟩
+      apply hp.congr
+      intro i _ hi
+      have hv : NoNone (probesOf a) := by
+        cases hsg : segs with
+        | nil => subst hsg; have := hsegs.nil_eq; omega
+        | cons p _ => exact (hprobe p (by simp [hsg])).vnn
+      simp only [kwP, hcond, evalB, Test.eval, sat_eq_argSat op a _ hshape hv (hcell i hi)]
+    · have hcon : (t.indexes.contains c && decide (op ≠ Op.mtch)) = false := by simp [hidx]
+      simp only [hcon, Bool.false_eq_true, if_false]
+      have htake : (t.vcol c).take (t.m N) = t.vcol c := by rw [← hlen]; exact List.take_length
+      rw [htake, compareScan_eq cfg (t.vcol c) op a hshape (h.scan hidx op a hcond)]
+      exact scan_case (sat op a) (.cmp op a) (fun _ => rfl) hcond
+  simp only [kwHere, ecol, bind, Except.bind]
+  cases arg with
+  | fn p =>
+    simp only [hshows.toList]
+    exact scan_case (fun x => .ok (p.eval x)) (.fn p) (fun _ => rfl) rfl
+  | val a =>
+    have hc := hcmp a rfl
+    subst hc
+    have hres : (resolveArg cfg comparison (Arg.val a)).2 = some (effOp comparison a, a) := rfl
+    simp only [hres, hshows.toList, pure, Except.pure]
+    have := cmp_case (effOp comparison a) a rfl
+    simp only [bind, Except.bind, pure, Except.pure] at this
+    exact this
+  | dict op a =>
+    have hres : (resolveArg cfg comparison (Arg.dict op a)).2 = some (op, a) := by
+      simp only [resolveArg]
+      split
+      · rename_i hn
+        simp at hn
+        have := h.notin a (by rw [hn.1])
+        simp [this] at hn
+      · rfl
+    simp only [hres, hshows.toList, pure, Except.pure]
+    have := cmp_case op a rfl
+    simp only [bind, Except.bind, pure, Except.pure] at this
+    exact this
+
+
+/-! ## all keywords -/
+
+/-- no plain (non-dict, non-callable) argument among the keywords -/
+def noVal (kws : List (Nat × Arg)) : Prop := ∀ kw ∈ kws, ∀ a, kw.2 ≠ .val a
+
+/-- P10: in a tree without the repair no plain argument may follow a `{op: value}` argument -/
+def NoLeak (cfg : Cfg) : List (Nat × Arg) → Prop
+  | [] => True
+  | kw :: rest => (cfg.localOp = true ∨ (∀ op a, kw.2 = .dict op a → noVal rest)) ∧ NoLeak cfg rest
+
+theorem whereLoop_spec (cfg : Cfg) (t : Table) (N : Nat) (hok : t.OK N) (lohis : List (Nat × List (Nat × Nat)))
+    (pos : Option Op) :
+    ∀ (kws : List (Nat × Arg)) (comparison : Option Op), (comparison = pos ∨ noVal kws) → NoLeak cfg kws →
+    (∀ kw ∈ kws, KwOK cfg t lohis (t.m N) pos kw) →
+    (∀ kw ∈ kws, ∀ i, i < t.m N → ∃ b, (condOf pos kw).test.eval (cellAt (t.vcol kw.1) i) = .ok b) →
+    ∃ heres : List (List Nat), whereLoop cfg t lohis (t.m N) comparison kws = .ok heres.flatten ∧
+      List.Forall₂ (fun kw l => Picks l 0 (t.m N) (kwP t pos kw)) kws heres
+  | [], _, _, _, _, _ => ⟨[], rfl, List.Forall₂.nil⟩
+  | kw :: rest, comparison, hinv, hleak, hkw, hspec => by
+    obtain ⟨c, arg⟩ := kw
+    have hcmp : ∀ a, (c, arg).2 = .val a → comparison = pos := by
+      intro a ha
+      rcases hinv with h | h
+      · exact h
+      · exact absurd ha (h (c, arg) (by simp) a)
+    obtain ⟨l, e, hp⟩ := kwHere_spec cfg t N hok lohis pos comparison (c, arg) hcmp (hkw _ (by simp)) (hspec _ (by simp))
+    have hinv' : (if cfg.localOp then comparison else (resolveArg cfg comparison arg).1) = pos ∨ noVal rest := by
+      have hnv : noVal ((c, arg) :: rest) → noVal rest := fun h kw hk => h kw (by simp [hk])
+      by_cases hl : cfg.localOp = true
+      · simp only [hl, if_true]
+        rcases hinv with h | h
+        · exact Or.inl h
+        · exact Or.inr (hnv h)
+      · simp only [hl]
+        cases arg with
+        | fn p => rcases hinv with h | h
+                  · exact Or.inl h
+                  · exact Or.inr (hnv h)
+        | val a => rcases hinv with h | h
+                   · exact Or.inl h
+                   · exact Or.inr (hnv h)
+        | dict op a =>
+          rcases hleak.1 with h | h
+          · exact absurd h hl
+          · exact Or.inr (h op a rfl)
+    obtain ⟨heres, e', hf⟩ := whereLoop_spec cfg t N hok lohis pos rest _ hinv' hleak.2
+      (fun kw hk => hkw kw (by simp [hk])) (fun kw hk => hspec kw (by simp [hk]))
+    refine ⟨l :: heres, ?_, List.Forall₂.cons hp hf⟩
+    simp only [whereLoop, e, e', List.flatten_cons]
+
+theorem forall2_mem_flatten {kws : List (Nat × Arg)} {heres : List (List Nat)} {m : Nat} {P : Nat × Arg → Nat → Prop}
+    (h : List.Forall₂ (fun kw l => Picks l 0 m (P kw)) kws heres) (i : Nat) :
+    i ∈ heres.flatten ↔ i < m ∧ ∃ kw ∈ kws, P kw i := by
+  induction h with
+  | nil => simp
+  | @cons kw l kws heres hp _ ih =>
+    simp only [List.flatten_cons, List.mem_append, ih, hp.mem, List.mem_cons]
+    constructor
+    · rintro (⟨_, a, b⟩ | ⟨a, kw', hk, b⟩)
+      · exact ⟨a, kw, Or.inl rfl, b⟩
+      · exact ⟨a, kw', Or.inr hk, b⟩
+    · rintro ⟨a, kw', hk | hk, b⟩
+      · subst hk; exact Or.inl ⟨Nat.zero_le _, a, b⟩
+      · exact Or.inr ⟨a, kw', hk, b⟩
+
+/-- the selection `where` hands to `View` -/
+theorem selection_picks {kws : List (Nat × Arg)} {heres : List (List Nat)} {m : Nat} {P : Nat × Arg → Nat → Prop}
+    (h : List.Forall₂ (fun kw l => Picks l 0 m (P kw)) kws heres) :
+    Picks (if kws.length > 1 then sortDedupNat heres.flatten else heres.flatten) 0 m (fun i => ∃ kw ∈ kws, P kw i) := by
+  by_cases hlen : kws.length > 1
+  · simp only [hlen, if_true]
+    obtain ⟨a, b⟩ := sortDedupNat_spec heres.flatten
+    refine ⟨a, fun i => ?_⟩
+    rw [b i, forall2_mem_flatten h i]
+    simp
+  · simp only [hlen, if_false]
+    cases h with
+    | nil => exact ⟨List.Pairwise.nil, fun i => by simp⟩
+    | @cons kw l kws' heres' hp hrest =>
+      cases hrest with
+      | nil =>
+        simp only [List.flatten_cons, List.flatten_nil, List.append_nil]
+        apply hp.congr
+        intro i _ _
+        simp
+      | cons _ _ => simp at hlen
+
+theorem picks_filter (m : Nat) (p : Nat → Bool) : Picks ((List.range m).filter p) 0 m (fun i => p i = true) := by
+  refine ⟨?_, fun i => by simp [List.mem_filter]⟩
+  unfold StrictInc
+  exact List.Pairwise.filter _ (by simpa [List.range_eq_range'] using (List.pairwise_lt_range' (s := 0) (n := m)))
+
+
+/-! ## `where` = the plain filter -/
+
+/-- rows of a view of the table: row `k` of the new table is row `select[k]` of the old one -/
+theorem rowAt_view (t : Table) (N : Nat) (hok : t.OK N) (sel' : Sel) (select : List Nat)
+    (hidx : sel'.idx N = select.map (fun i => (t.sel.idx N).getD i 0))
+    (hlt : ∀ i ∈ select, i < t.m N) (k : Nat) (hk : k < select.length) :
+    Table.rowAt { t with sel := sel' } k = t.rowAt (select.getD k 0) := by
+  simp only [Table.rowAt]
+  apply List.map_congr_left
+  intro c hc
+  obtain ⟨b, hb⟩ := hok.cols c hc
+  obtain ⟨e, l⟩ := hok.base_len hb
+  have hsk : select.getD k 0 < t.m N := by
+    simp only [List.getD, List.getElem?_eq_getElem hk, Option.getD_some]
+    exact hlt _ (List.getElem_mem hk)
+  have e' : Table.base { t with sel := sel' } c = b := by simp [Table.base, hb]
+  simp only [Table.vcol, viewOf, e, e', l, hidx]
+  rw [cellAt_map _ _ k (by simpa using hk), cellAt_map _ _ _ hsk]
+  simp [List.getD, List.getElem?_eq_getElem hk, List.getElem?_eq_getElem (show select[k] < (t.sel.idx N).length from by
+    have := hlt _ (List.getElem_mem hk); simpa [Table.m] using this)]
+
+theorem where_eq_spec_aux (cfg : Cfg) (t : Table) (N : Nat) (hok : t.OK N) (pos : Option Op)
+    (kws : List (Nat × Arg)) (hne : kws ≠ []) (lohis : List (Nat × List (Nat × Nat)))
+    (hl : t.calcLohis cfg = .ok lohis)
+    (hkw : ∀ kw ∈ kws, KwOK cfg t lohis (t.m N) pos kw) (hleak : NoLeak cfg kws)
+    (R rs : List (List Cell)) (hR : t.rows = .ok R)
+    (hspec : whereS { columns := t.columns, rows := R } (kws.map (condOf pos)) = .ok rs) :
+    ∃ t', t.pwhere cfg Option.none pos kws = .ok t' ∧ t'.rows = .ok rs ∧
+      t'.columns = t.columns ∧ t'.indexes = t.indexes ∧ t'.data = t.data ∧ t'.OK N := by
+  -- the table is not degenerate
+  obtain ⟨kw0, hkw0⟩ := List.exists_mem_of_ne_nil kws hne
+  have hcne : t.columns ≠ [] := List.ne_nil_of_mem (hkw kw0 hkw0).incols
+  have hdne : t.data ≠ [] := by
+    obtain ⟨b, hb⟩ := hok.cols _ (hkw kw0 hkw0).incols
+    exact List.ne_nil_of_mem (lookupCol_mem hb)
+  have hlen := hok.len_eq hdne
+  have hRe : R = (List.range (t.m N)).map t.rowAt := by
+    have := hok.rows_eq hcne
+    rw [hR] at this
+    exact Except.ok.inj this
+  -- the plain evaluation is defined on every row, for every keyword
+  have hrow : ∀ i, i < t.m N → ∃ b, satRow t.columns (t.rowAt i) (kws.map (condOf pos)) = .ok b := by
+    intro i hi
+    apply filterRows_inv _ R rs hspec
+    rw [hRe]
+    exact List.mem_map.mpr ⟨i, by simpa using hi, rfl⟩
+  have hev : ∀ kw ∈ kws, ∀ i, i < t.m N → ∃ b, (condOf pos kw).test.eval (cellAt (t.vcol kw.1) i) = .ok b := by
+    intro kw hk i hi
+    obtain ⟨b, hb⟩ := hrow i hi
+    obtain ⟨c, b', h1, h2⟩ := satRow_inv _ _ _ b hb (condOf pos kw) (List.mem_map.mpr ⟨kw, hk, rfl⟩)
+    have hcol : (condOf pos kw).col = kw.1 := by
+      obtain ⟨c0, a0⟩ := kw
+      cases a0 <;> rfl
+    rw [hcol, cellOf_rowAt t i kw.1 (hkw kw hk).incols] at h1
+    cases h1
+    exact ⟨b', h2⟩
+  -- the loop
+  obtain ⟨heres, eloop, hf⟩ := whereLoop_spec cfg t N hok lohis pos kws pos (Or.inl rfl) hleak hkw hev
+  have hsel := selection_picks hf
+  generalize hselection : (if kws.length > 1 then sortDedupNat heres.flatten else heres.flatten) = selection at hsel
+  -- the view
+  obtain ⟨sel', ecomp, hidx, hselok⟩ := composeSel_spec t.sel N hok.sel selection hsel.inc
+    (fun i hi => by have := (hsel.mem i).mp hi; simpa [Table.m] using this.2.1)
+  have hok' : Table.OK { t with sel := sel' } N := ⟨hok.len, hok.cols, hselok⟩
+  refine ⟨{ t with sel := sel' }, ?_, ?_, rfl, rfl, rfl, hok'⟩
+  · simp only [Table.pwhere, hl, hlen, eloop, bind, Except.bind, hselection, ecomp, pure, Except.pure]
+  · -- rows of the result
+    have hm' : Table.m { t with sel := sel' } N = selection.length := by simp [Table.m, hidx]
+    rw [Table.OK.rows_eq hok' hcne, hm']
+    -- the plain filter
+    let q : List Cell → Bool := fun r => match satRow t.columns r (kws.map (condOf pos)) with | .ok b => b | .error _ => false
+    have hq : ∀ r ∈ R, satRow t.columns r (kws.map (condOf pos)) = .ok (q r) := by
+      intro r hr
+      rw [hRe] at hr
+      obtain ⟨i, hi, rfl⟩ := List.mem_map.mp hr
+      obtain ⟨b, hb⟩ := hrow i (by simpa using hi)
+      simp [q, hb]
+    have hfr : filterRows (fun r => satRow t.columns r (kws.map (condOf pos))) R = .ok (R.filter q) := filterRows_ok _ q R hq
+    have hrs : rs = R.filter q := by
+      simp only [whereS] at hspec
+      rw [hfr] at hspec
+      exact (Except.ok.inj hspec).symm
+    -- q on row i is the disjunction over the keywords
+    have hqi : ∀ i, i < t.m N → (q (t.rowAt i) = true ↔ ∃ kw ∈ kws, kwP t pos kw i) := by
+      intro i hi
+      have := satRow_ok t.columns (t.rowAt i) (fun c => cellAt (t.vcol c) i) (kws.map (condOf pos)) (by
+        intro k hk
+        obtain ⟨kw, hkw', rfl⟩ := List.mem_map.mp hk
+        have hcol : (condOf pos kw).col = kw.1 := by
+          obtain ⟨c0, a0⟩ := kw
+          cases a0 <;> rfl
+        refine ⟨by rw [hcol]; exact cellOf_rowAt t i kw.1 (hkw kw hkw').incols, ?_⟩
+        rw [hcol]; exact hev kw hkw' i hi)
+      simp only [q, this, List.any_map, List.any_eq_true, Function.comp]
+      constructor
+      · rintro ⟨kw, hk, h⟩
+        refine ⟨kw, hk, ?_⟩
+        have hcol : (condOf pos kw).col = kw.1 := by
+          obtain ⟨c0, a0⟩ := kw
+          cases a0 <;> rfl
+        simpa [kwP, hcol] using h
+      · rintro ⟨kw, hk, h⟩
+        refine ⟨kw, hk, ?_⟩
+        have hcol : (condOf pos kw).col = kw.1 := by
+          obtain ⟨c0, a0⟩ := kw
+          cases a0 <;> rfl
+        simpa [kwP, hcol] using h
+    have hseleq : selection = (List.range (t.m N)).filter (q ∘ t.rowAt) := by
+      apply hsel.unique
+      apply (picks_filter (t.m N) (q ∘ t.rowAt)).congr
+      intro i _ hi
+      exact hqi i hi
+    congr 1
+    rw [hrs, hRe, List.filter_map, ← hseleq]
+    apply List.ext_getElem
+    · simp
+    · intro k h1 h2
+      simp only [List.length_map, List.length_range] at h1
+      simp only [List.getElem_map, List.getElem_range]
+      rw [rowAt_view t N hok sel' selection hidx (fun i hi => ((hsel.mem i).mp hi).2.1) k h1]
+      simp [List.getD, List.getElem?_eq_getElem h1]
+
+
+/-! ## the decidable check implies the hypotheses -/
+
+theorem allIn_iff (lo hi : Nat) (p : Nat → Bool) : allIn lo hi p = true ↔ ∀ i, lo ≤ i → i < hi → p i = true := by
+  simp only [allIn, List.all_eq_true, List.mem_range'_1]
+  constructor
+  · intro h i h1 h2; exact h i ⟨h1, by omega⟩
+  · intro h i hi; exact h i hi.1 (by omega)
+
+theorem sortedSegB_sound {xs : List Cell} {lo hi : Nat} (h : sortedSegB xs lo hi = true) : SortedSeg xs lo hi := by
+  intro i j h1 h2 h3
+  have := (allIn_iff _ _ _).mp ((allIn_iff _ _ _).mp h i h1 (by omega)) j (by omega) h3
+  simpa [h2] using this
+
+theorem probeOKB_sound {cfg : Cfg} {xs : List Cell} {lo hi : Nat} {vs : List Cell}
+    (h : probeOKB cfg xs lo hi vs = true) : ProbeOK cfg xs lo hi vs := by
+  simp only [probeOKB, Bool.and_eq_true, decide_eq_true_eq, Bool.or_eq_true, List.all_eq_true] at h
+  obtain ⟨⟨⟨⟨⟨⟨h1, h2⟩, h3⟩, h4⟩, h5⟩, h6⟩, h7⟩ := h
+  refine ⟨h1, h2, h3, sortedSegB_sound h4, ?_, ?_, ?_⟩
+  · intro i a b
+    have := (allIn_iff _ _ _).mp h5 i a b
+    simpa using this
+  · intro v hv i a b
+    exact (allIn_iff _ _ _).mp (h6 v hv) i a b
+  · intro v hv
+    simpa using h7 v hv
+
+theorem segsB_sound : ∀ {l : List (Nat × Nat)} {a b : Nat}, segsB l a b = true → Segs l a b
+  | [], a, b, h => by
+    simp [segsB] at h; subst h; exact Segs.nil a
+  | (l, hh) :: r, a, b, h => by
+    simp only [segsB, Bool.and_eq_true, beq_iff_eq, decide_eq_true_eq] at h
+    obtain ⟨⟨h1, h2⟩, h3⟩ := h
+    subst h1
+    exact Segs.cons h2 (segsB_sound h3)
+
+theorem cellOKB_sound {op : Op} {a : ArgV} {c : Cell} (h : cellOKB op a c = true) : CellOK op a c := by
+  simp only [cellOKB, Bool.and_eq_true, Bool.or_eq_true, List.all_eq_true, Bool.not_eq_true'] at h
+  obtain ⟨⟨h1, h2⟩, h3⟩ := h
+  refine ⟨by simpa using h1, h2, ?_⟩
+  intro hop v hv
+  rcases h3 with h3 | h3
+  · rcases hop with rfl | rfl | rfl | rfl <;> simp [isOrderOp] at h3
+  · simpa using h3 v hv
+
+theorem distinctKeysB_sound : ∀ {l : List Cell}, distinctKeysB l = true → l.Pairwise (fun u v => u.key ≠ v.key)
+  | [], _ => List.Pairwise.nil
+  | v :: vs, h => by
+    simp only [distinctKeysB, Bool.and_eq_true, List.all_eq_true] at h
+    rw [List.pairwise_cons]
+    exact ⟨fun w hw => by simpa using h.1 w hw, distinctKeysB_sound h.2⟩
+
+theorem leGeOKB_sound {cfg : Cfg} {op : Op} {a : ArgV} {col : List Cell} (h : leGeOKB cfg op a col = true) :
+    leGeOK cfg op a col := by
+  simp only [leGeOKB, Bool.and_eq_true, Bool.or_eq_true, List.all_eq_true] at h
+  constructor
+  · intro hop
+    subst hop
+    rcases h.1 with (h1 | h1) | h1
+    · simp at h1
+    · exact Or.inl h1
+    · exact Or.inr ⟨fun c hc => by simpa using h1.1 c hc, fun v hv => by simpa using h1.2 v hv⟩
+  · intro hop
+    subst hop
+    rcases h.2 with (h1 | h1) | h1
+    · simp at h1
+    · exact Or.inl h1
+    · exact Or.inr ⟨fun c hc => by simpa using h1.1 c hc, fun v hv => by simpa using h1.2 v hv⟩
+
+theorem kwOKB_sound {cfg : Cfg} {t : Table} {lohis : List (Nat × List (Nat × Nat))} {m : Nat} {pos : Option Op}
+    {kw : Nat × Arg} (h : kwOKB cfg t lohis m pos kw = true) : KwOK cfg t lohis m pos kw := by
+  simp only [kwOKB, Bool.and_eq_true] at h
+  obtain ⟨⟨h1, h2⟩, h3⟩ := h
+  refine ⟨by simpa using h1, ?_, ?_, ?_, ?_⟩
+  · intro a ha
+    rw [ha] at h2
+    simpa using h2
+  · intro op a hc
+    rw [hc] at h3
+    simp only [Bool.and_eq_true] at h3
+    exact h3.1
+  · intro hidx op a hc
+    rw [hc] at h3
+    have hcon : t.indexes.contains kw.1 = true := by simpa using hidx
+    simp only [Bool.and_eq_true, hcon, if_true] at h3
+    obtain ⟨_, h4⟩ := h3
+    cases hd : dictGet lohis kw.1 with
+    | error e => simp [hd] at h4
+    | ok segs =>
+      simp only [hd, Bool.and_eq_true, Bool.or_eq_true, List.all_eq_true] at h4
+      obtain ⟨⟨⟨⟨a1, a2⟩, a3⟩, a4⟩, a5⟩ := h4
+      refine ⟨segs, rfl, segsB_sound a1, fun p hp => probeOKB_sound (a2 p hp), a3, ?_, ?_⟩
+      · intro hop
+        subst hop
+        rcases a4 with (a4 | a4) | a4
+        · simp at a4
+        · exact Or.inl a4
+        · exact Or.inr (distinctKeysB_sound a4)
+      · intro i hi
+        exact cellOKB_sound ((allIn_iff _ _ _).mp a5 i (Nat.zero_le _) hi)
+  · intro hidx op a hc
+    rw [hc] at h3
+    have hcon : t.indexes.contains kw.1 = false := by simpa using hidx
+    simp only [Bool.and_eq_true, hcon] at h3
+    exact leGeOKB_sound h3.2
+
+theorem noLeakB_sound {cfg : Cfg} : ∀ {kws : List (Nat × Arg)}, noLeakB cfg kws = true → NoLeak cfg kws
+  | [], _ => trivial
+  | kw :: rest, h => by
+    simp only [noLeakB, Bool.and_eq_true, Bool.or_eq_true, List.all_eq_true, Bool.not_eq_true'] at h
+    refine ⟨?_, noLeakB_sound h.2⟩
+    rcases h.1 with (h1 | h1) | h1
+    · exact Or.inl h1
+    · right
+      intro op a ha
+      rw [ha] at h1
+      simp [isDict] at h1
+    · right
+      intro op a _ k hk a' ha'
+      have := h1 k hk
+      rw [ha'] at this
+      simp [isVal] at this
+
+theorem strictIncB_sound : ∀ {l : List Nat}, strictIncB l = true → StrictInc l
+  | [], _ => List.Pairwise.nil
+  | x :: xs, h => by
+    simp only [strictIncB, Bool.and_eq_true, List.all_eq_true, decide_eq_true_eq] at h
+    unfold StrictInc
+    rw [List.pairwise_cons]
+    exact ⟨h.1, strictIncB_sound h.2⟩
+
+theorem isOk_iff {α} (e : Except Err α) : isOk e = true ↔ ∃ a, e = .ok a := by
+  cases e <;> simp [isOk]
+
+theorem tableOKB_sound {t : Table} {N : Nat} (h : tableOKB t N = true) : t.OK N := by
+  simp only [tableOKB, Bool.and_eq_true, List.all_eq_true, beq_iff_eq, decide_eq_true_eq] at h
+  obtain ⟨⟨⟨h1, h2⟩, h3⟩, h4⟩ := h
+  exact ⟨h1, fun c hc => (isOk_iff _).mp (h2 c hc), ⟨strictIncB_sound h3, h4⟩⟩
+
+/-- `where` with keywords returns exactly the rows the plain row-by-row evaluation keeps -/
+theorem where_eq_spec' (cfg : Cfg) (t : Table) (pos : Option Op) (kws : List (Nat × Arg))
+    (R rs : List (List Cell)) (hwf : whereWF cfg t pos kws = true) (hR : t.rows = .ok R)
+    (hspec : whereS { columns := t.columns, rows := R } (kws.map (condOf pos)) = .ok rs) :
+    ∃ t', t.pwhere cfg Option.none pos kws = .ok t' ∧ t'.rows = .ok rs ∧
+      t'.columns = t.columns ∧ t'.indexes = t.indexes := by
+  unfold whereWF at hwf
+  cases hd : t.data with
+  | nil => simp [hd] at hwf
+  | cons p rest =>
+    obtain ⟨c0, b⟩ := p
+    simp only [hd, Bool.and_eq_true, Bool.not_eq_true'] at hwf
+    obtain ⟨⟨⟨h1, h2⟩, h3⟩, h4⟩ := hwf
+    cases hl : t.calcLohis cfg with
+    | error e => simp [hl] at h4
+    | ok lohis =>
+      simp only [hl, List.all_eq_true] at h4
+      have hne : kws ≠ [] := by
+        intro he; simp [he] at h2
+      obtain ⟨t', a1, a2, a3, a4, _, _⟩ := where_eq_spec_aux cfg t b.length (tableOKB_sound h1) pos kws hne lohis hl
+        (fun kw hk => kwOKB_sound (h4 kw hk)) (noLeakB_sound h3) R rs hR hspec
+      exact ⟨t', a1, a2, a3, a4⟩
+
+
+/-! ## bisect path = scan path on a whole sorted column -/
+
+theorem compare_bisect_eq_scan' (cfg : Cfg) (s : Seq) (xs : List Cell) (hsh : s.Shows xs) (op : Op) (a : ArgV)
+    (hshape : argShape op a = true)
+    (hok : ProbeOK cfg xs 0 xs.length (probesOf a)) (hcmp : allComparable (probesOf a) = true)
+    (hdup : op = .isin → cfg.dedupIn = true ∨ (probesOf a).Pairwise (fun u v => u.key ≠ v.key))
+    (hcell : ∀ c ∈ xs, CellOK op a c) (hle : leGeOK cfg op a xs) :
+    ∃ rs, compareBisect cfg s 0 xs.length op a = .ok rs ∧ compareScan cfg xs op a = .ok (rs.flatMap rangeOf) := by
+  obtain ⟨rs, e, hp⟩ := compareBisect_spec cfg s xs hsh 0 xs.length op a hshape hok hcmp hdup
+  refine ⟨rs, e, ?_⟩
+  rw [compareScan_eq cfg xs op a hshape hle]
+  obtain ⟨l, e', hp'⟩ := scanFilter_picks xs 0 (sat op a) (fun c => argSat op a c.key)
+    (fun c hc => sat_eq_argSat op a c hshape hok.vnn (hcell c hc))
+  rw [e']
+  congr 1
+  apply Picks.unique (lo := 0) (hi := xs.length) (P := fun i => argSat op a (cellAt xs i).key = true) _ hp
+  rw [Nat.zero_add] at hp'
+  apply hp'.congr
+  intro i _ _
+  simp
+
+/-! ## `where` with a row predicate -/
+
+theorem zip_map_self {β : Type} (f : Nat → β) : ∀ l : List Nat, l.zip (l.map f) = l.map (fun i => (i, f i))
+  | [] => rfl
+  | x :: xs => by simp [zip_map_self f xs]
+
+theorem filterMap_ite (q : Nat → Bool) : ∀ l : List Nat,
+    l.filterMap (fun x => if q x = true then some x else Option.none) = l.filter q
+  | [] => rfl
+  | x :: xs => by
+    by_cases h : q x = true <;> simp [h, filterMap_ite q xs]
+
+theorem where_pred_eq_spec' (cfg : Cfg) (t : Table) (N : Nat) (hok : t.OK N) (hne : t.columns ≠ []) (p : RowPred)
+    (pos : Option Op) (kws : List (Nat × Arg)) (R : List (List Cell)) (hR : t.rows = .ok R) :
+    ∃ t', t.pwhere cfg (some p) pos kws = .ok t' ∧ t'.rows = .ok (R.filter p.eval) ∧
+      t'.columns = t.columns ∧ t'.indexes = t.indexes ∧ t'.OK N := by
+  have hRe : R = (List.range (t.m N)).map t.rowAt := by
+    have := hok.rows_eq hne
+    rw [hR] at this
+    exact Except.ok.inj this
+  -- the selection is the filter of the row numbers
+  have hselq : ((List.range R.length).zip R).filterMap (fun (q : Nat × List Cell) => if p.eval q.2 then some q.1 else Option.none)
+      = (List.range (t.m N)).filter (p.eval ∘ t.rowAt) := by
+    rw [hRe]
+    simp only [List.length_map, List.length_range]
+    generalize t.m N = m
+    rw [zip_map_self, List.filterMap_map]
+    exact filterMap_ite (p.eval ∘ t.rowAt) (List.range m)
+  generalize hsg : (List.range (t.m N)).filter (p.eval ∘ t.rowAt) = selection at hselq
+  have hsel : Picks selection 0 (t.m N) (fun i => (p.eval ∘ t.rowAt) i = true) := by
+    rw [← hsg]; exact picks_filter _ _
+  obtain ⟨sel', ecomp, hidx, hselok⟩ := composeSel_spec t.sel N hok.sel selection hsel.inc
+    (fun i hi => by have := (hsel.mem i).mp hi; simpa [Table.m] using this.2.1)
+  have hok' : Table.OK { t with sel := sel' } N := ⟨hok.len, hok.cols, hselok⟩
+  refine ⟨{ t with sel := sel' }, ?_, ?_, rfl, rfl, hok'⟩
+  · simp only [Table.pwhere, hR, bind, Except.bind, hselq, ecomp, pure, Except.pure]
+  · have hm' : Table.m { t with sel := sel' } N = selection.length := by simp [Table.m, hidx]
+    rw [Table.OK.rows_eq hok' hne, hm']
+    congr 1
+    rw [hRe, List.filter_map, hsg]
+    apply List.ext_getElem
+    · simp
+    · intro k h1 h2
+      simp only [List.length_map, List.length_range] at h1
+      simp only [List.getElem_map, List.getElem_range]
+      rw [rowAt_view t N hok sel' selection hidx (fun i hi => ((hsel.mem i).mp hi).2.1) k h1]
+      simp [List.getD, List.getElem?_eq_getElem h1]
+
+
+/-! ## `_sub_lohis`: runs of equal keys in a sorted segment -/
+
+/-- the cells of `[lo,hi)` can be ordered against each other -/
+def MutCmp (xs : List Cell) (lo hi : Nat) : Prop :=
+  ∀ i j, lo ≤ i → i < hi → lo ≤ j → j < hi → (cellAt xs i).key.comparable (cellAt xs j).key = true
+
+/-- `[a,b)` is a non-empty run of one key inside `[lo,hi)`, and everything behind it up to `hi` is greater -/
+structure IsRun (xs : List Cell) (hi : Nat) (p : Nat × Nat) : Prop where
+  ne : p.1 < p.2
+  le : p.2 ≤ hi
+  same : ∀ i, p.1 ≤ i → i < p.2 → (cellAt xs i).key = (cellAt xs p.1).key
+  after : ∀ i, p.2 ≤ i → i < hi → (cellAt xs p.1).key.lt (cellAt xs i).key = true
+
+theorem subLohis_spec (cfg : Cfg) (s : Seq) (xs : List Cell) (hsh : s.Shows xs) :
+    ∀ (fuel lo hi : Nat), hi - lo ≤ fuel → lo ≤ hi → hi ≤ xs.length →
+    SortedSeg xs lo hi → MutCmp xs lo hi → NoNoneSeg xs lo hi →
+    ∃ segs, subLohis cfg s fuel lo hi = .ok segs ∧ Segs segs lo hi ∧ ∀ p ∈ segs, IsRun xs hi p ∧ lo ≤ p.1 := by
+  intro fuel
+  induction fuel with
+  | zero =>
+    intro lo hi hf hle _ _ _ _
+    have : lo = hi := by omega
+    subst this
+    exact ⟨[], rfl, Segs.nil lo, by simp⟩
+  | succ fuel ih =>
+    intro lo hi hf hle hhi hs hm hn
+    by_cases heq : lo = hi
+    · subst heq
+      exact ⟨[], by simp [subLohis], Segs.nil lo, by simp⟩
+    · have hlt : lo < hi := by omega
+      obtain ⟨nh, e, h1, h2, h3, h4⟩ := myBisectRight_spec cfg s xs hsh (cellAt xs lo) lo hi hle hhi (Or.inr hlt) hs
+        (fun i a b => hm i lo a b (le_refl _) hlt) hn (hn lo (le_refl _) hlt)
+      have hnh : lo < nh := by
+        by_contra hcon
+        have : nh = lo := by omega
+        subst this
+        have := h4 nh (le_refl _) hlt
+        rw [Key.lt_irrefl] at this; exact absurd this (by simp)
+      obtain ⟨rest, e', hsegs, hruns⟩ := ih nh hi (by omega) h2 hhi
+        (fun i j a b c => hs i j (by omega) b c)
+        (fun i j a b c d => hm i j (by omega) b (by omega) d)
+        (fun i a b => hn i (by omega) b)
+      refine ⟨(lo, nh) :: rest, ?_, Segs.cons (by omega) hsegs, ?_⟩
+      · simp only [subLohis, heq, if_false, hsh.get lo (by omega), bind, Except.bind, e, e', pure, Except.pure]
+      · intro p hp
+        simp at hp
+        rcases hp with rfl | hp
+        · refine ⟨⟨hnh, h2, ?_, fun i a b => h4 i a b⟩, le_refl _⟩
+          intro i a b
+          simp only at a b ⊢
+          by_cases hil : i = lo
+          · rw [hil]
+          · apply Key.lt_connected
+            · exact hs lo i (le_refl _) (by omega) (by omega)
+            · exact h3 i a b
+        · obtain ⟨r, hr⟩ := hruns p hp
+          exact ⟨r, by omega⟩
+
+theorem Segs.append {l1 l2 : List (Nat × Nat)} {a m b : Nat} (h1 : Segs l1 a m) (h2 : Segs l2 m b) :
+    Segs (l1 ++ l2) a b := by
+  induction h1 with
+  | nil a => exact h2
+  | cons hh _ ih => exact Segs.cons hh (ih h2)
+
+/-- the refinement of a whole level -/
+theorem subLohisAll_spec (cfg : Cfg) (s : Seq) (xs : List Cell) (hsh : s.Shows xs) :
+    ∀ (cur : List (Nat × Nat)) (a b : Nat), Segs cur a b → b ≤ xs.length →
+    (∀ p ∈ cur, SortedSeg xs p.1 p.2 ∧ MutCmp xs p.1 p.2 ∧ NoNoneSeg xs p.1 p.2) →
+    ∃ nxt, subLohisAll cfg s cur = .ok nxt ∧ Segs nxt a b ∧
+      ∀ q ∈ nxt, ∃ p ∈ cur, p.1 ≤ q.1 ∧ IsRun xs p.2 q := by
+  intro cur a b hsegs
+  induction hsegs with
+  | nil a => intro _ _; exact ⟨[], rfl, Segs.nil a, by simp⟩
+  | @cons a h b r hah hr ih =>
+    intro hb hall
+    obtain ⟨hs, hm, hn⟩ := hall (a, h) (by simp)
+    have hhb : h ≤ b := hr.le
+    obtain ⟨segs, e, hsg, hruns⟩ := subLohis_spec cfg s xs hsh (h - a) a h (le_refl _) hah (by omega) hs hm hn
+    obtain ⟨nxt, e', hsg', hruns'⟩ := ih hb (fun p hp => hall p (by simp [hp]))
+    refine ⟨segs ++ nxt, by simp only [subLohisAll, e, e', bind, Except.bind, pure, Except.pure], ?_, ?_⟩
+    · exact hsg.append hsg'
+    · intro q hq
+      rw [List.mem_append] at hq
+      rcases hq with hq | hq
+      · obtain ⟨r1, r2⟩ := hruns q hq
+        exact ⟨(a, h), by simp, r2, r1⟩
+      · obtain ⟨p, hp, r1, r2⟩ := hruns' q hq
+        exact ⟨p, by simp [hp], r1, r2⟩
+
+
+/-! ## slices and blocks of a list along consecutive segments -/
+
+def slice {α} (l : List α) (a b : Nat) : List α := (l.drop a).take (b - a)
+
+def blocksOf {α} (l : List α) (segs : List (Nat × Nat)) : List (List α) := segs.map (fun p => slice l p.1 p.2)
+
+theorem slice_length {α} (l : List α) (a b : Nat) (_hab : a ≤ b) (hb : b ≤ l.length) : (slice l a b).length = b - a := by
+  simp [slice]; omega
+
+theorem Segs.bounds {segs : List (Nat × Nat)} {a b : Nat} (h : Segs segs a b) :
+    ∀ p ∈ segs, a ≤ p.1 ∧ p.1 ≤ p.2 ∧ p.2 ≤ b := by
+  induction h with
+  | nil a => simp
+  | @cons a h b r hah hr ih =>
+    intro p hp
+    simp at hp
+    rcases hp with rfl | hp
+    · exact ⟨le_refl _, hah, hr.le⟩
+    · have := ih p hp; omega
+
+theorem slice_split {α} (l : List α) (a h b : Nat) (hah : a ≤ h) (hhb : h ≤ b) : slice l a b = slice l a h ++ slice l h b := by
+  simp only [slice]
+  have e1 : b - a = (h - a) + (b - h) := by omega
+  rw [e1, List.take_add]
+  congr 1
+  rw [List.drop_drop]
+  congr 2
+  omega
+
+theorem blocks_flatten {α} (l : List α) : ∀ {segs : List (Nat × Nat)} {a b : Nat}, Segs segs a b →
+    (blocksOf l segs).flatten = slice l a b := by
+  intro segs a b h
+  induction h with
+  | nil a => simp [blocksOf, slice]
+  | @cons a h b r hah hr ih =>
+    simp only [blocksOf, List.map_cons, List.flatten_cons] at ih ⊢
+    rw [ih, ← slice_split l a h b hah hr.le]
+
+theorem slice_full {α} (l : List α) : slice l 0 l.length = l := by simp [slice]
+
+/-- replacing the slice `[a,h)` -/
+theorem take_append_drop_slices {α} (l seg : List α) (a h : Nat) (hah : a ≤ h) (hh : h ≤ l.length)
+    (hlen : seg.length = h - a) :
+    (l.take a ++ seg ++ l.drop h).length = l.length ∧ (l.take a ++ seg ++ l.drop h).take h = l.take a ++ seg ∧
+    (∀ c d, h ≤ c → slice (l.take a ++ seg ++ l.drop h) c d = slice l c d) := by
+  have hpre : (l.take a ++ seg).length = h := by simp [hlen]; omega
+  refine ⟨by simp [hlen]; omega, ?_, ?_⟩
+  · rw [List.take_append_of_le_length (by omega), List.take_of_length_le (by omega)]
+  · intro c d hc
+    simp only [slice]
+    rw [List.drop_append, List.drop_of_length_le (by omega : (l.take a ++ seg).length ≤ c), hpre, List.nil_append,
+      List.drop_drop]
+    congr 2
+    omega
+
+
+/-! ## `indexes[lo:hi] = sorted(indexes[lo:hi], key=…)` for every segment -/
+
+theorem sortBy_length {α : Type} (lt : α → α → Bool) (l : List α) : (sortBy lt l).length = l.length :=
+  (sortBy_perm lt l).length_eq
+
+/-- the order `sorted(…, key=col.__getitem__)` puts row numbers in -/
+def ltBy (kf : Nat → Cell) (i j : Nat) : Bool := (kf i).key.lt (kf j).key
+
+theorem pySortedBy_ok (kf : Nat → Cell) (xs : List Nat) (h : allComparable (xs.map kf) = true) :
+    pySortedBy kf xs = .ok (sortBy (ltBy kf) xs) := by
+  simp only [pySortedBy, h, if_true]; rfl
+
+theorem sortSegments_spec (kf : Nat → Cell) : ∀ {segs : List (Nat × Nat)} {a b : Nat}, Segs segs a b →
+    ∀ (perm : List Nat), b = perm.length →
+    (∀ p ∈ segs, allComparable ((slice perm p.1 p.2).map kf) = true) →
+    sortSegments kf segs perm = .ok (perm.take a ++ ((blocksOf perm segs).map (sortBy (ltBy kf))).flatten) := by
+  intro segs a b hs
+  induction hs with
+  | nil a =>
+    intro perm hb _
+    simp [sortSegments, blocksOf, hb]
+  | @cons a h b r hah hr ih =>
+    intro perm hb hc
+    have hhb : h ≤ b := hr.le
+    have hseg := pySortedBy_ok kf (slice perm a h) (hc (a, h) (by simp))
+    have hlen : (sortBy (ltBy kf) (slice perm a h)).length = h - a := by
+      rw [sortBy_length, slice_length perm a h hah (by omega)]
+    obtain ⟨l1, l2, l3⟩ := take_append_drop_slices perm (sortBy (ltBy kf) (slice perm a h)) a h hah (by omega) hlen
+    have hbl : blocksOf (perm.take a ++ sortBy (ltBy kf) (slice perm a h) ++ perm.drop h) r = blocksOf perm r := by
+      simp only [blocksOf]
+      apply List.map_congr_left
+      intro p hp
+      exact l3 p.1 p.2 (hr.bounds p hp).1
+    have := ih (perm.take a ++ sortBy (ltBy kf) (slice perm a h) ++ perm.drop h) (by rw [l1]; exact hb)
+      (fun p hp => by rw [l3 p.1 p.2 (hr.bounds p hp).1]; exact hc p (by simp [hp]))
+    simp only [sortSegments, bind, Except.bind]
+    have hsl : (perm.drop a).take (h - a) = slice perm a h := rfl
+    rw [hsl, hseg]
+    simp only
+    rw [this, l2, hbl]
+    simp [blocksOf, List.append_assoc]
+
+/-- the blocks of a list assembled from blocks of the right lengths are those blocks -/
+theorem blocksOf_flatten {α : Type} : ∀ {segs : List (Nat × Nat)} {a b : Nat}, Segs segs a b →
+    ∀ (pre : List α) (bs : List (List α)), pre.length = a → List.Forall₂ (fun (p : Nat × Nat) blk => blk.length = p.2 - p.1) segs bs →
+    blocksOf (pre ++ bs.flatten) segs = bs := by
+  intro segs a b hs
+  induction hs with
+  | nil a => intro pre bs _ hf; cases hf; rfl
+  | @cons a h b r hah hr ih =>
+    intro pre bs hpre hf
+    cases hf with
+    | @cons _ blk _ rest hblk hrest =>
+      simp only at hblk
+      simp only [blocksOf, List.map_cons, List.flatten_cons]
+      congr 1
+      · simp only [slice]
+        rw [List.drop_append_of_le_length (by omega), List.drop_of_length_le (by omega), List.nil_append]
+        exact List.take_left' hblk
+      · have := ih (pre ++ blk) rest (by simp [hpre, hblk]; omega) hrest
+        simp only [blocksOf, List.append_assoc] at this
+        exact this
 
 
 end Coba.C17
